@@ -375,7 +375,7 @@ Section Shape.
       let sh := (height / two) - round in
       let bb := box2_extend (bb2 s0) (bb2 s1) in
       Some (mkObj3 (fun p =>
-                      let k := clamp ((k05 * wz p / sh) + k05) (o0 O) (o1 O) in
+                      let k := if sh =? o0 O then k05 else clamp ((k05 * wz p / sh) + k05) (o0 O) (o1 O) in
                       let a0 := ev2 s0 (mkV2 (wx p) (wy p)) in
                       let a1 := ev2 s1 (mkV2 (wx p) (wy p)) in
                       let a := mix a0 a1 k in
